@@ -180,9 +180,33 @@ def value_as_tree(value_text: str):
         return None
 
 
+def ident_body_tree(text: str):
+    """`let … body = { … }; in body`: the attribute tree of the set the top-level name denotes"""
+    root = cstread.ts_parse(text)
+    kids = [c for c in root.named_children if c.type != "comment"]
+    if len(kids) != 1 or kids[0].type != "let_expression":
+        return None
+    body = kids[0].child_by_field_name("body")
+    if body is None or body.type != "variable_expression":
+        return None
+    bs = [c for c in kids[0].named_children if c.type == "binding_set"]
+    name = body.text.decode()
+    for b in (bs[0].named_children if bs else []):
+        if b.type != "binding":
+            continue
+        ap = b.child_by_field_name("attrpath")
+        dn = [cstread.attr_name(a) for a in ap.named_children if a.type != "comment"]
+        if dn == [name]:
+            tgt = cstread.find_target(b.child_by_field_name("expression"))
+            return None if tgt is None else cstread.read_value(tgt)
+    return None
+
+
 def safe_tree(text: str):
     try:
         t = cstread.read_doc_tree(text)
+        if t is None:
+            t = ident_body_tree(text)
     except cstread.Duplicate as exc:
         return ("duplicate", str(exc))
     return None if t is None else cstread.plain(t)
